@@ -474,6 +474,75 @@ fn null_font_text(ctx: &mut Ctx, rng: &mut Rng) {
     ctx.nontrivial(egmon::rng::hash_str(&case()));
 }
 
+/// Fonts whose glyph mapping designates cells beyond their atlas image (a larger mapping combined
+/// with a smaller image, a replacement index past the last glyph): such glyphs are dropped, nothing
+/// may panic, allocate or run away.
+fn short_atlas_font_text(ctx: &mut Ctx, rng: &mut Rng) {
+    use embedded_graphics::mono_font::{mapping::StrGlyphMapping, DecorationDimensions, MonoFont};
+    let (cw, ch) = (rng.u32r(1, 8), rng.u32r(1, 10));
+    let per_row = *rng.pick(&[1u32, 4, 16, 31]);
+    let rows = rng.u32r(0, 3);
+    let (iw, ih) = (per_row * cw, rows * ch);
+    let data = vec![0xA5u8; ((iw as usize + 7) / 8) * ih as usize];
+    let replacement = *rng.pick(&[0usize, 31, 94, 95, 200, 4096]);
+    let mapping = StrGlyphMapping::new("\0 ~", replacement);
+    let Ok(image) = ImageRaw::<BinaryColor>::new(&data, Size::new(iw, ih)) else {
+        ctx.count("short_atlas_image_rejected", 1);
+        return;
+    };
+    let font = MonoFont {
+        image,
+        character_size: Size::new(cw, ch),
+        character_spacing: rng.u32r(0, 2),
+        baseline: rng.u32r(0, ch),
+        strikethrough: DecorationDimensions::new(ch / 2, 1),
+        underline: DecorationDimensions::new(ch + 1, 1),
+        glyph_mapping: &mapping,
+    };
+    let glyphs_in_atlas = per_row * rows;
+    // characters: inside the atlas, in the row directly after it, far beyond it, unmapped
+    let mut s = String::new();
+    for _ in 0..rng.usizer(0, 6) {
+        let c = match rng.below(5) {
+            0 => char::from_u32(0x20 + rng.u32r(0, glyphs_in_atlas.min(94))).unwrap_or(' '),
+            1 => char::from_u32(0x20 + (glyphs_in_atlas + rng.u32r(0, per_row)).min(94)).unwrap_or('~'),
+            2 => '~',
+            3 => *rng.pick(&['\u{e9}', '\u{b0}', '\u{20ac}', '\n']),
+            _ => char::from_u32(0x20 + rng.u32r(0, 94)).unwrap_or(' '),
+        };
+        s.push(c);
+    }
+    let at = Point::new(rng.i32r(-20, 60), rng.i32r(-20, 40));
+    let case = || format!("Text {:?} at {:?}, font {}x{} cells, atlas {}x{} px ({} glyphs), mapping ' '..='~' with replacement index {}", s, (at.x, at.y), cw, ch, iw, ih, glyphs_in_atlas, replacement);
+    let mut b = MonoTextStyleBuilder::<Rgb565>::new().font(&font);
+    if rng.chance(3, 4) {
+        b = b.text_color(Rgb565::RED);
+    }
+    if rng.chance(1, 2) {
+        b = b.background_color(Rgb565::BLUE);
+    }
+    if rng.chance(1, 3) {
+        b = b.underline().strikethrough();
+    }
+    let style = b.build();
+    let ts = TextStyleBuilder::new()
+        .alignment(*rng.pick(&[Alignment::Left, Alignment::Center, Alignment::Right]))
+        .baseline(*rng.pick(&[Baseline::Top, Baseline::Bottom, Baseline::Middle, Baseline::Alphabetic]))
+        .build();
+    let text = Text::with_text_style(&s, at, style, ts);
+    let clip = rect(rng.i32r(-5, 30), rng.i32r(-5, 20), rng.u32r(0, 40), rng.u32r(0, 30));
+    monitored(ctx, "font with glyphs beyond its atlas: bounding_box + draw", &case, || {
+        let bb = text.bounding_box();
+        let mut t = NullNative::<Rgb565>::new(rect(0, 0, 64, 48), 200_000);
+        let next = text.draw(&mut t);
+        let mut u = NullIter(NullNative::<Rgb565>::new(rect(0, 0, 64, 48), 200_000));
+        let next2 = text.draw(&mut u.clipped(&clip));
+        (bb, next, next2, t.over || u.0.over)
+    });
+    ctx.count("texts_in_fonts_with_glyphs_beyond_the_atlas", 1);
+    ctx.nontrivial(egmon::rng::hash_str(&case()));
+}
+
 /// out-of-range coordinates / indices are rejected without a panic
 fn rejections(ctx: &mut Ctx, rng: &mut Rng) {
     const EXTREME: [i32; 12] = [i32::MIN, i32::MIN + 1, -1025, -1, 0, 1, 12, 13, 1024, 65536, i32::MAX - 1, i32::MAX];
@@ -647,7 +716,7 @@ fn visit_as<C: ZCol>(ctx: &mut Ctx, rng: &mut Rng, d: &Desc, extra: u32) {
 fn main() {
     main_with("c08", "exploration", |run: &Run| {
         run.set_rule(
-            "Display-scale, boundary-biased inputs (coordinates +-1024, sizes <= 1024 biased to {0,1,2,63..65,240,255..257,320,480,1024}, stroke widths 0..=128 incl. wider than the shape, Solid and Dotted stroke styles, line heights <= 1024 px / 400 %, the null font, empty strings/polylines/images): \
+            "Display-scale, boundary-biased inputs (coordinates +-1024, sizes <= 1024 biased to {0,1,2,63..65,240,255..257,320,480,1024}, stroke widths 0..=128 incl. wider than the shape, Solid and Dotted stroke styles, line heights <= 1024 px / 400 %, the null font, fonts whose mapping designates glyphs beyond their atlas image, empty strings/polylines/images): \
              every constructor, bounding_box, contains, points, pixels, draw (native-fill and default-fill counting targets, through random translated/cropped/clipped stacks with display-scale areas, on boxes incl. empty and unbounded), translate, offset, confine_radii; \
              plus Framebuffers as targets (6 instantiations incl. portrait and multi-byte: fill_solid/fill_contiguous/clear called directly with zero-sized, partly and wholly out-of-range areas, degenerate and off-screen styled primitives drawn on them) and the rejection workload (Framebuffer set_pixel/pixel, ImageRaw::pixel, sub_image, raw load/store/nth with out-of-range points and indices up to i32/usize extremes). Every library call runs under the panic monitor with the allocation counter armed; iterators are consumed through step budgets. \
              This binary is built twice (default features, fixed_point). Non-trivial = non-empty bounding box (drawables) / any rejection probe; distinct = distinct case descriptions.",
@@ -669,6 +738,8 @@ fn main() {
         run.generate("text", nt, false, 0.2, |ctx, idx, rng| {
             if idx % 8 == 0 {
                 null_font_text(ctx, rng);
+            } else if idx % 8 == 4 {
+                short_atlas_font_text(ctx, rng);
             } else {
                 let d = gen_text_display(rng);
                 visit_as::<Rgb565>(ctx, rng, &d, 0);
